@@ -239,7 +239,9 @@ func verifPump(script string) string {
 	sig := make(chan os.Signal)
 	var encoded []uint64
 	failNext := false
+	encDone := make(chan struct{}, 1)
 	enc := vegeta.Encoder(func(r *vegeta.Result) error {
+		defer func() { encDone <- struct{}{} }()
 		if failNext {
 			return fmt.Errorf("verif: encode failure")
 		}
@@ -267,6 +269,7 @@ loop:
 			fire = func() bool {
 				select {
 				case res <- r:
+					<-encDone // the pump has finished handling this result
 					return true
 				case err := <-done:
 					returned = verifErr(err)
@@ -277,6 +280,11 @@ loop:
 			fire = func() bool {
 				select {
 				case sig <- os.Interrupt:
+					// the pump has finished handling this signal once the attacker is
+					// stopped (first signal) or the pump has returned (second signal)
+					for !atk.VerifStopped() {
+						time.Sleep(10 * time.Microsecond)
+					}
 					return true
 				case err := <-done:
 					returned = verifErr(err)
